@@ -149,6 +149,11 @@ E("sort", 1, lambda S, **kw: etl.sort(S[0], "k", **kw), "sorted")
 E("sort_none", 1, lambda S, **kw: etl.sort(S[0], **kw), "sorted")
 E("sort_reverse", 1, lambda S, **kw: etl.sort(S[0], ("k", "j"), reverse=True, **kw), "sorted")
 E("mergesort", 2, lambda S, **kw: etl.mergesort(S[0], S[1], key="k", **kw), "sorted presorted", presort="k")
+E("mergesort_reverse", 2, lambda S, **kw: etl.mergesort(S[0], S[1], key="k", reverse=True, **kw), "sorted")
+E("mergesort_nokey", 2, lambda S, **kw: etl.mergesort(S[0], S[1], **kw), "sorted")
+E("mergesort_three", 3, lambda S, **kw: etl.mergesort(S[0], S[1], S[2], key=("k", "j"), **kw), "sorted presorted", presort=("k", "j"))
+E("mergesort_header", 2, lambda S, **kw: etl.mergesort(S[0], etl.rename(S[1], {"v": "v2"}), key="k", header=["k", "s", "v2", "zz"],
+                                                       missing="M", **kw), "sorted presorted", presort="k")
 # ---- selects --------------------------------------------------------------------------------
 E("select", 1, lambda S: etl.select(S[0], lambda r: r["v"] is not None), "stream")
 E("select_expr", 1, lambda S: etl.select(S[0], "{v} is not None"), "stream")
@@ -189,6 +194,13 @@ E("join_compound", 2, lambda S, **kw: etl.join(S[0], etl.rename(S[1], {"v": "v2"
   "sorted presorted", presort=("k", "j"))
 E("join_lrkey", 2, lambda S, **kw: etl.join(S[0], etl.rename(S[1], {"k": "k2", "v": "v2", "s": "s2", "j": "j2"}),
                                              lkey="k", rkey="k2", lprefix="l_", rprefix="r_", **kw), "sorted presorted", presort="k")
+_RNK = {"k": "k2", "v": "v2", "s": "s2", "j": "j2"}
+for _nm in ["leftjoin", "rightjoin", "outerjoin", "antijoin", "lookupjoin"]:
+    # the same operators with lkey/rkey, and (where the documentation allows it) with the natural key
+    E(_nm + "_lrkey", 2, lambda S, _nm=_nm, **kw: getattr(etl, _nm)(S[0], etl.rename(S[1], _RNK), lkey="k", rkey="k2", **kw),
+      "sorted presorted" + (" rect" if _nm == "antijoin" else ""), presort="k")
+    E(_nm + "_natural", 2, lambda S, _nm=_nm, **kw: getattr(etl, _nm)(S[0], etl.cut(S[1], "k", "v"), **kw),
+      "sorted presorted" + (" rect" if _nm == "antijoin" else ""), presort=("k", "v"))
 E("join_natural", 2, lambda S, **kw: etl.join(S[0], etl.cut(S[1], "k", "v"), **kw), "sorted presorted", presort=("k", "v"))
 E("outerjoin_missing", 2, lambda S, **kw: etl.outerjoin(S[0], etl.rename(S[1], _RN), key="k", missing="M", **kw),
   "sorted presorted", presort="k")
